@@ -408,7 +408,7 @@ def main(run):
         "K_opt_nil_embed": h_nil_embed(wobs), "K_opt_promoted_setdefault": h_promoted(wobs)}))
     run.log("findings replayed")
 
-    npk = 900 if run.thorough() else 70
+    npk = 900 if run.thorough() else 55
     pkgs, gstats = gen_packages(run, npk)
     obs, mod = observe(run, shoot, sigbin, "c13mod", pkgs)
     pkgdefs, rendered, index = render_cases(pkgs, obs)
